@@ -98,6 +98,8 @@ def gen_list(rng, n, tier):
                 if rng.random() < 0.7:
                     xs[i] = None
         out.append({'x': xs, 'k': k, 'nodata': rng.choice([None, None, None, 0, 2, 7, -3, 2.5])})
+        if len(k) > 1 and rng.random() < 0.15:
+            out[-1]['multi'] = rng.choice(['tuple', 'list'])
     return out
 
 
@@ -109,6 +111,17 @@ def run_list(case):
     if case.get('nodata') is not None:
         tr.no_data_value = case['nodata']         # the marker a file reader leaves on its tracks; a sample equal to it is still a sample
     k = [float(v) for v in case['k']]
+    if case.get('multi'):
+        # several features filtered in one call (a tuple of inputs, a tuple of outputs), as many as the window has weights: every one of them gets the whole window
+        m = len(k)
+        ins = ['a'] + ['a%d' % j for j in range(1, m)]; outs = ['b'] + ['b%d' % j for j in range(1, m)]
+        for j in range(1, m):
+            tr.createAnalyticalFeature(ins[j], [v + j for v in xs])
+        tr.operate(Operator.FILTER, tuple(ins) if case['multi'] == 'tuple' else list(ins), k, tuple(outs) if case['multi'] == 'tuple' else list(outs))
+        ret = tr['b']
+        for j in range(1, m):
+            tr.removeAnalyticalFeature(ins[j]); tr.removeAnalyticalFeature(outs[j])
+        return {'out': enc(tr['b']), 'ret': enc(ret), 'a': enc(tr['a']), 'names': tr.getListAnalyticalFeatures(), 'x': tr.getX()}
     ret = tr.operate(Operator.FILTER, 'a', k, 'b')
     return {'out': enc(tr['b']), 'ret': enc(ret), 'a': enc(tr['a']), 'names': tr.getListAnalyticalFeatures(), 'x': tr.getX()}
 
